@@ -534,7 +534,7 @@ func execC09(sc c09Scenario) core.Outcome {
 }
 
 var propC09 = core.Prop[c09Scenario]{
-	ID: "C09",
+	ID: "C09", CrashLog: true,
 	Rule: "each case runs 6 Muxer->Client pairs concurrently: variant x track set (video none/H264/H265/VP9/AV1, 0-2 audio AAC/Opus, any order, names/languages/default flags; MPEG-TS limited as Start demands) x entry URL (multivariant or leading media playlist) x SegmentMinDuration 0.5-0.8 s x 10-50 fps; writes paced in real time, the client attaches after 3-5 completed segments through an in-process transport calling Muxer.Handle and runs for 3-4 more segments; " +
 		"oracle: reported tracks (codec, clock rate, rendition name/language/default), every delivered unit is the written unit that follows the previous delivery (byte-identical, no repeat/reorder; no gaps except in Low-Latency), dts/pts = written - first delivered leading DTS (+-1 tick), AbsoluteTime = written NTP +-3 ms; non-trivial = more than 100 units delivered and matched in the case",
 	Draw: drawC09,
